@@ -222,10 +222,7 @@ Definition collision_free_infix (off : Z) (sp : file_spec) (fixed : bytes) (f : 
   let rel := related_files f (fsfx sp) fixed in
   match filter_files off (fsfx sp) fixed rel (IFEq infix) (fsfx sp), filter_files off (fsfx sp) fixed rel (IFEq infix) (Some gz_sfx) with
   | Some unc, Some cmp =>
-    let sibs := filter (fun n => contains restart_tag n)
-                  (filter (fun n => match fsfx sp with
-                                    | Some s => ext_is (strip_gz n) s
-                                    | None => true end) (unc ++ cmp)) in
+    let sibs := filter (fun n => contains restart_tag n) (unc ++ cmp) in
     let new_name := as_name sp fixed (Some infix) in
     let new_gz := new_name ++ dot :: gz_sfx in
     let exists_ n := match lookup f n with Some _ => true | None => false end in
